@@ -146,11 +146,15 @@ class RecordingAggregator(Aggregator):
         super().__init__()
         self.inner = inner
         self.calls = []  # (matrix clone, returned vector object)
+        # recorded from a forward hook, like a user's instrumentation of an nn.Module: an aggregator that is not *called*
+        # (aggregator.forward(matrix) instead of aggregator(matrix)) records nothing and the checks report the call count
+        self.register_forward_hook(self._record)
+
+    def _record(self, module, inputs, out):
+        self.calls.append((inputs[0].detach().clone(), out))
 
     def forward(self, matrix: Tensor) -> Tensor:
-        out = self.inner(matrix)
-        self.calls.append((matrix.detach().clone(), out))
-        return out
+        return self.inner(matrix)
 
 
 class FnAggregator(Aggregator):
